@@ -45,7 +45,13 @@ RULE = ("seeded histories of 3-8 fit / transform / fit_transform calls (landscap
         "class multi-*: two or three live estimators in one process with interleaved calls (all fitted on fold A, "
         "then all on fold B; user-fixed ends equal to values another estimator learns), each judged on its own sub-history "
         "and required to be untouched by calls on the others; multi-imager-sharedkw: the live imagers are built from the "
-        "SAME weight_params / kernel_params dict objects; distinct = distinct JSON input")
+        "SAME weight_params / kernel_params dict objects; "
+        "classes *-dtype (100 extra cases in quick, 2000 in thorough; 3 of 4 imager, 1 of 4 landscaper histories): every diagram "
+        "is an ndarray of dtype float32 / float16 / int64, or the collection mixes float32, float64 and float16 diagrams; all "
+        "coordinates are exactly representable in their dtype; half of the imager ones use a 'round' decimal pixel size "
+        "(0.05 .. 0.7) so that data extents are near-multiples of it; the same relations as for float64 are demanded between "
+        "the calls on the SAME arrays (fit then transform on a copy == fit_transform == a fresh imager; element by element; "
+        "inputs keep values and dtype) - nothing is compared with a float64 run; distinct = distinct JSON input")
 TRUSTED_BASE = [
     "Coq 8.16.1 kernel, vm_compute (no native_compute)",
     "PrimFloat primitives and their stdlib specification axioms (imager correspondence only; the theorems are closed)",
@@ -58,6 +64,9 @@ ASSUMPTIONS = [
     "values are the subject of C08 / C04.  Here outputs are compared relationally (exact array equality between runs)",
     "infinite deaths and NaN are outside the generated inputs; attribute assignment / set_params between calls is not "
     "part of the histories (the property quantifies over fit / transform / fit_transform calls)",
+    "imager histories on diagrams of a dtype other than float64 (classes imager*-dtype) are judged by the relational "
+    "predicate only: fit and the range setters then compute in the dtype of the data, the Coq imager model is binary64, "
+    "so these cases get the verdict skip in the model tie (landscaper *-dtype cases keep the exact tie over Q)",
     "imager: the only raising call generated is fit / fit_transform on a collection that contains an empty diagram "
     "beside a non-empty one; such a call is no step of the Coq history (the model state must survive it unchanged); "
     "a wholly empty input is outside the generated inputs",
@@ -212,8 +221,10 @@ def _ikw(rng, ps):
     return kw
 
 
-def _imager_case(rng):
+def _imager_case(rng, round_pixels=False):
     ps = rng.choice([0.25, 0.5, 1.0, 0.1, 0.3, 0.7, 1.0 / 3.0, rng.uniform(0.1, 1.5), rng.uniform(0.1, 1.5)])
+    if round_pixels and rng.random() < 0.5:
+        ps = rng.choice([0.1, 0.1, 0.2, 0.3, 0.05, 0.7])     # extents of 'round' decimal data are near-multiples
     def rng_for():
         lo = rng.choice([0.0, -1.0, 0.5, rng.uniform(-2, 2)])
         ext = rng.choice([ps * rng.randint(1, 8), ps * rng.uniform(0.5, 8), 0.3, 0.7, 1.0])
@@ -329,15 +340,69 @@ def _multi_case(rng):
     return c
 
 
+DTYPES = ("float32", "float16", "int64", "mixed")
+_MIXED = ("float32", "float64", "float16")
+
+
+def _narrow(x, dt):
+    """The double nearest to x that the dtype holds exactly (so that the JSON input IS the array's content)."""
+    import struct
+    if dt == "float32":
+        return struct.unpack("f", struct.pack("f", x))[0]
+    if dt in ("float16", "mixed"):
+        return struct.unpack("e", struct.pack("e", x))[0]
+    if dt == "int64":
+        return float(round(x))
+    return x
+
+
+def _dtypes_of(c, o, n):
+    """dtype name of each of the n diagrams of one call ('mixed': the collection mixes float32 / float64 / float16)."""
+    dt = c.get("dtype")
+    if dt is None:
+        return ["float64"] * n
+    if dt == "mixed":
+        k = len(o.get("dgms", o.get("X", [])))
+        return [_MIXED[(i + k) % 3] for i in range(n)]
+    return [dt] * n
+
+
+def _narrow_case(rng, what=None):
+    """Classes *-dtype: the diagrams are arrays of a dtype other than float64 (float32, float16, int64, or a
+    collection that mixes float widths); every value is exactly representable in its dtype.  Nothing is compared
+    with a float64 run: the same relations between fit / transform / fit_transform on the SAME arrays are demanded."""
+    what = what or rng.choice(["imager", "imager", "imager", "landscaper"])
+    dt = rng.choice(["float32", "float32", "float16", "float16", "int64", "mixed"])
+    if what == "landscaper":
+        c = _landscaper_case(rng)
+        for o in c["ops"]:
+            o["X"] = [[[_narrow(b, dt), _narrow(e, dt)] for b, e in d] for d in o["X"]]
+    else:
+        c = _imager_case(rng, round_pixels=True)
+        for o in c["ops"]:
+            o["dgms"] = [[[_narrow(b, dt), _narrow(e, dt)] for b, e in d] for d in o["dgms"]]
+    c["dtype"] = dt
+    c["cls"] += "-dtype"
+    return c
+
+
 def _one(rng, i):
+    if i % 5 == 4:
+        return _multi_case(rng)
+    if i % 10 == 7:
+        return _narrow_case(rng)
+    return _landscaper_case(rng) if i % 2 == 0 else _imager_case(rng)
+
+
+def _base(rng, i):
     if i % 5 == 4:
         return _multi_case(rng)
     return _landscaper_case(rng) if i % 2 == 0 else _imager_case(rng)
 
 
 def generate(rng, tier):
-    n = 400 if tier == "quick" else 8000
-    return [_one(rng, i) for i in range(n)]
+    n, m = (400, 100) if tier == "quick" else (8000, 2000)
+    return [_base(rng, i) for i in range(n)] + [_narrow_case(rng) for _ in range(m)]
 
 
 def search_generate(rng, n):
@@ -385,7 +450,8 @@ def _l_runner(c):
                                      num_steps=c["num_steps"], flatten=c["flatten"])
 
     def X_of(o):
-        return [np.array(d, dtype=float).reshape(-1, 2) for d in o["X"]]
+        return [np.array(d, dtype=float).reshape(-1, 2).astype(dt)
+                for d, dt in zip(o["X"], _dtypes_of(c, o, len(o["X"])))]
 
     def attrs(e):
         gp = e.get_params()
@@ -477,7 +543,8 @@ def _i_runner(c, kwargs=None):
     st = {"last_fit": None}             # the most recent fit / fit_transform that did not raise
 
     def build(o):
-        arrs = [np.array(d, dtype=float).reshape(-1, 2) for d in o["dgms"]]
+        arrs = [np.array(d, dtype=float).reshape(-1, 2).astype(dt)
+                for d, dt in zip(o["dgms"], _dtypes_of(c, o, len(o["dgms"])))]
         if "same" in o:                 # positions with the same group id hold the same array OBJECT
             first = {}
             arrs = [first.setdefault(g, a) for g, a in zip(o["same"], arrs)]
@@ -526,7 +593,7 @@ def _i_runner(c, kwargs=None):
         rec.update(r)
         if o["op"] != "transform" and "error" not in r:
             st["last_fit"] = o
-        rec["inputs_unchanged"] = all(np.array_equal(a, b) for a, b in zip(arrs, before))
+        rec["inputs_unchanged"] = all(np.array_equal(a, b) and a.dtype == b.dtype for a, b in zip(arrs, before))
         rec["snap"] = _isnap(p)
         return rec
     return {"snap": _isnap(p)}, step, (lambda: _isnap(p))
@@ -830,6 +897,10 @@ def coq_judge(cases, outs, results):
     for i, (c, o) in enumerate(zip(cases, outs)):
         if "calls" not in o:
             continue
+        if c["kind"] == "imager" and c.get("dtype"):
+            # fit / the range setters then compute in the dtype of the data, the Coq imager model is binary64 only
+            verdicts[i] = "skip:diagram dtype %s is outside the binary64 imager model (judged by the predicate)" % c["dtype"]
+            continue
         pairs = list(zip(_sub_cases(c), o["per"])) if c["kind"] == "multi" else [(c, o)]
         if any(sc["kind"] == "imager" and any("snap" not in r for r in so["calls"]) for sc, so in pairs):
             continue
@@ -859,6 +930,12 @@ def finding_of(case, out, detail):
 
 def shrink_candidates(c):
     n = len(c["ops"])
+    if c.get("dtype"):
+        d = {k: v for k, v in c.items() if k != "dtype"}      # the same values as float64 arrays
+        yield d
+        if c["dtype"] == "mixed":
+            for dt in ("float32", "float16"):
+                yield dict(c, dtype=dt)
     for k in range(n - 1, -1, -1):
         d = dict(c); d["ops"] = c["ops"][:k] + c["ops"][k + 1:]
         yield d
